@@ -140,6 +140,7 @@ def run(ctx) -> None:
         td = not any(k.arg == "topdown" and not (isinstance(k.value, ast.Constant) and k.value.value is True) for k in getattr(wnode, "keywords", []))
         ctx.check(td, RO, "_recursive_simulate walks top-down", "bottom-up walk: simulated creates of children precede their parents", rfi.loc)
         kinds = {"dirs": False, "files": False}
+        why: list[str] = []
         for b in W.extra["paths"]:
             for x in b.evs:
                 if x.kind != "loop":
@@ -158,8 +159,38 @@ def run(ctx) -> None:
                         a = (y.extra.get("args") or [""])[0]
                         if "IN_CREATE" not in a or (("IN_ISDIR" in a) != (which == "dirs")):
                             good = False
+                        # the simulated record names the walked entry: name = the loop element, path = join(walk root, element),
+                        # descriptor = the watch just added (directories) / the parent's watch looked up by dirname(path) (files)
+                        term = y.extra.get("term")
+                        rec = term.args[0] if isinstance(term, ast.Call) and term.args else None
+                        if isinstance(rec, ast.Call) and len(rec.args) >= 5:
+                            elem = f"$elem({x.text})"
+                            wroot = x.text[: -len("[1]")] + "[0]"
+                            path = f"os.path.join({wroot}, {elem})"
+                            a0, a3, a4 = ast.unparse(rec.args[0]), ast.unparse(rec.args[3]), ast.unparse(rec.args[4])
+                            if a3 != elem or a4 != path:
+                                good = False
+                                why.append(f"{which}: record carries name `{a3[-40:]}` / path `{a4[-60:]}` instead of the walked entry and join(walk root, entry)")
+                            if which == "dirs" and not (a0.startswith("inotify_add_watch(") and path in a0):
+                                good = False
+                                why.append("dirs: the record's descriptor is not the watch just added for that directory")
+                            if which == "files":
+                                lookups = (f"self._wd_for_path.get(os.path.dirname({path}))", f"self._wd_for_path[os.path.dirname({path})]")
+                                if a0 not in lookups:
+                                    good = False
+                                    why.append("files: the record's descriptor is not the parent's watch looked up under dirname(path)")
+                                elif a0 == lookups[0] and bb.conds().get(f"{a0} is None") is not False:
+                                    good = False
+                                    why.append("files: a record is built although the parent's watch was not found (descriptor None)")
+                        else:
+                            good = False
+                    if not apps and bb.outcome == ("continue",) and which == "files":
+                        c_ = bb.conds()
+                        if not any(k.startswith("self._wd_for_path.get(os.path.dirname(") and k.endswith(" is None") and v is True for k, v in c_.items()):
+                            good = False
+                            why.append("files: an entry is skipped although its parent's watch exists")
                 kinds[which] = kinds[which] or good
-        ctx.check(kinds["dirs"] and kinds["files"], RT, "new directory: one simulated create per walked directory and file", f"simulated creates missing or mis-flavoured (dirs ok={kinds['dirs']}, files ok={kinds['files']})", rfi.loc)
+        ctx.check(kinds["dirs"] and kinds["files"], RT, "new directory: one simulated create per walked directory and file", f"simulated creates missing, mis-flavoured or mis-addressed (dirs ok={kinds['dirs']}, files ok={kinds['files']}): " + "; ".join(sorted(set(why)))[:400], rfi.loc)
         break
     if not found_sim:
         from .c02 import deferred_walk
@@ -240,6 +271,10 @@ IC = "observers/inotify_c.py"
 IB = "observers/inotify_buffer.py"
 DQ = "utils/delayed_queue.py"
 VARIANTS = [
+    dict(name="B simulated file creates only when the parent is unknown", expect="fire", rule="C01/tree-changing-complete", edits=[(IC, "                    if wd_parent_dir is None:\n", "                    if wd_parent_dir is not None:\n")]),
+    dict(name="B simulated file path joined the wrong way round", expect="fire", rule="C01/tree-changing-complete", edits=[(IC, "                    full_path = os.path.join(root, filename)\n", "                    full_path = os.path.join(filename, root)\n")]),
+    dict(name="B simulated file records re-use the last directory's path", expect="fire", rule="C01/tree-changing-complete", edits=[(IC, "                    full_path = os.path.join(root, filename)\n                    wd_parent_dir", "                    wd_parent_dir")]),
+    dict(name="B simulated directory record named after the walk root", expect="fire", rule="C01/tree-changing-complete", edits=[(IC, "                            0,\n                            dirname,\n                            full_path,", "                            0,\n                            root,\n                            full_path,")]),
     dict(name="B popleft -> pop in DelayedQueue.get", expect="fire", rule="C01/order-preserving-pipeline", edits=[(DQ, "self._queue.popleft()", "self._queue.pop()")]),
     dict(name="B create branch emits only the parent event", expect="fire", rule="C01/tree-changing-complete", edits=[(IN, "                cls = DirCreatedEvent if event.is_directory else FileCreatedEvent\n                self.queue_event(cls(src_path))\n                self.queue_event(DirModifiedEvent(os.path.dirname(src_path)))\n            elif event.is_delete_self", "                self.queue_event(DirModifiedEvent(os.path.dirname(src_path)))\n            elif event.is_delete_self")]),
     dict(name="B event_list.insert(0, ...)", expect="fire", rule="C01/order-preserving-pipeline", edits=[(IC, "                event_list.append(inotify_event)\n", "                event_list.insert(0, inotify_event)\n")]),
